@@ -146,6 +146,9 @@ func (c *otApplyContext) applyGPOS(table tables.GPOSLookup) bool {
 		case tables.SinglePosData1:
 			c.applyGPOSValueRecord(inner.ValueFormat, inner.ValueRecord, glyphPos)
 		case tables.SinglePosData2:
+			if index >= len(inner.ValueRecords) { // index is not sanitized for extension lookups
+				return false
+			}
 			c.applyGPOSValueRecord(inner.ValueFormat, inner.ValueRecords[index], glyphPos)
 		}
 		buffer.idx++
@@ -288,6 +291,9 @@ func (c *otApplyContext) applyGPOSPair1(inner tables.PairPosData1, index int) bo
 	buffer := c.buffer
 	skippyIter := &c.iterInput
 	pos := skippyIter.idx
+	if index >= len(inner.PairSets) { // index is not sanitized for extension lookups
+		return false
+	}
 	set := inner.PairSets[index]
 	record, ok := set.FindGlyph(gID(buffer.Info[skippyIter.idx].Glyph))
 	if !ok {
@@ -620,6 +626,9 @@ func (c *otApplyContext) applyGPOSMarkToLigature(data tables.MarkLigPos, markInd
 		return false
 	}
 
+	if ligIndex >= len(data.LigatureArray.LigatureAttachs) { // index is not sanitized for extension lookups
+		return false
+	}
 	ligAttach := data.LigatureArray.LigatureAttachs[ligIndex].Anchors()
 
 	// Find component to attach to
